@@ -152,11 +152,7 @@ def execute(ctx, it, params, variant=None):
         fired += ['signal-recipient-choice'] * st['signal_choices']
     if io:
         fired.append('io-scheduling-points')
-    # With I/O scheduling points the event log also records file opens and closes, and their order was seen to differ between
-    # two executions of one plan in a way that could not be pinned down (same output, same status, different log hash): for
-    # those runs the re-execution gate compares status and output only.  A violation must still reproduce twice before it is
-    # reported (fcheck.handle_violation), otherwise the check ends with an infrastructure error, never with a VIOLATION line.
-    return F.Result(verdict, key, fired, [(it['name'], st.get('sched_hash'))], digest=(o.exit, C.sha(o.stdout or b''), None if io else st.get('log_hash'), o.res.get('tsan_reports')),
+    return F.Result(verdict, key, fired, [(it['name'], st.get('sched_hash'))], digest=(o.exit, C.sha(o.stdout or b''), st.get('log_hash'), o.res.get('tsan_reports')),
                     info={'exit': o.exit, 'workers': simt.get('nprocs'), 'policy': simt.get('policy'), 'steps': st.get('steps'), 'threads': st.get('threads'),
                           'max_enabled': st.get('max_enabled'), 'lock_contended': st.get('lock_contended'), 'io_yield': io,
                           'io_events': o.res.get('simf', {}).get('io_events')},
